@@ -349,6 +349,10 @@ class Sched:
             self.log.append(['?get', a.name, v])
 
 
+class UpstreamError(Exception):
+    pass
+
+
 def row_func(row):
     row['n'] += 1
 
@@ -390,8 +394,16 @@ def run_schedule(item):
     def predicate(row):
         return row['id'] in sel
 
+    fail_after = item.get('fail_after')
+
+    def failing(rs):
+        for i, row in enumerate(rs):
+            if fail_after is not None and i == fail_after:
+                raise UpstreamError('upstream failed at row %d' % i)
+            yield row
+
     def consumer():
-        it = iter(rows)
+        it = failing(rows) if fail_after is not None else iter(rows)
         gen = pm.fork(_Res(it), row_func, N, predicate)
         for row in gen:
             if not s.started:
@@ -411,7 +423,8 @@ def run_schedule(item):
     return dict(r=R, n=N, sel=sorted(sel), seed=item['seed'], strategy=strategy, ev=s.log, feeds=True,
                 fin=dict(delivered=delivered, applied=applied,
                          terminated=bool(state['terminated'] and not leftovers and s.deadlock is None and state['error'] is None)),
-                deadlock=s.deadlock, error=state['error'], leftovers=leftovers, steps=s.steps)
+                deadlock=s.deadlock, error=state['error'], error_type=type(main.error).__name__ if main.error is not None else None,
+                leftovers=leftovers, steps=s.steps, timeouts_fired=s.timeouts_fired)
 
 
 class _Res:
